@@ -42,6 +42,7 @@ def plan(tier, seed):
     sh.append({"kind": "sizes"})
     sh.append({"kind": "eq"})
     sh.append({"kind": "mixed"})
+    sh.append({"kind": "threads"})
     return sh
 
 
@@ -305,6 +306,51 @@ def eq(res):
     res.sample({"eq_pairs": len(a1) * len(a2), "example": [list(d1[0]), list(d1[70])]})
 
 
+def threads(seed, res):
+    """Decoding an address is a read-only question about a frame: several threads asking at once (a bus monitor thread beside
+    the application's) get the answers a single thread gets.  Tiny switch interval, 8 threads, shuffled work lists."""
+    import sys
+    import threading
+    from dali import address, frame
+    from models import addr_ref as R
+    r = rng(seed, "C04", "threads")
+    frames = [(16, r.getrandbits(16)) for _ in range(3000)] + [(24, r.getrandbits(24) | 0x010000) for _ in range(3000)]
+    # kinds in proportions that keep the matching kind changing
+    frames += [(16, ((0x80 | g << 1 | 1) << 8) | 0x90) for g in range(16)] * 20 + [(16, 0xFF90), (16, 0xFD90), (24, 0xFFFE00), (24, 0x81FE00)] * 50
+    expect = {}
+    for w, v in frames:
+        expect[(w, v)] = R.gear_address(v) if w == 16 else R.device_address(v)
+    wrong = []
+    old = sys.getswitchinterval()
+    sys.setswitchinterval(1e-6)
+    try:
+        def worker(k):
+            mine = list(frames)
+            import random
+            random.Random(k).shuffle(mine)
+            for w, v in mine:
+                try:
+                    got = address.from_frame(frame.ForwardFrame(w, v))
+                    gd = R.describe(got) if got is not None else None
+                except Exception as e:     # noqa
+                    gd = ("raised", type(e).__name__)
+                if gd != expect[(w, v)]:
+                    wrong.append((k, w, v, gd))
+        ts = [threading.Thread(target=worker, args=(k,)) for k in range(8)]
+        for t in ts:
+            t.start()
+        for t in ts:
+            t.join(300)
+    finally:
+        sys.setswitchinterval(old)
+    res.evaluations += 8 * len(frames)
+    res.hit("threaded_decodes", 8 * len(frames))
+    if wrong:
+        k, w, v, gd = wrong[0]
+        res.violation("C04/threads/partition", f"with 8 threads decoding at once, thread {k} read frame {v:#x} ({w} bits) as {gd}; "
+                      f"the bits say {expect[(w, v)]} ({len(wrong)} wrong answers)", {"frame": v, "width": w})
+
+
 def mixed(seed, res):
     """All codecs in one process after a history of unrelated frame operations on other widths.
 
@@ -338,6 +384,57 @@ def mixed(seed, res):
         for vio in sub.violations:
             res.violation(vio["key"] + "/after-history", vio["what"], vio["witness"])
     res.distinct += len(jobs)
+    # one frame object read, changed bit by bit, and read again: what is read always follows the bits the frame holds now
+    for t in range(1500):
+        w = r.choice([16, 24])
+        v = r.getrandbits(w)
+        f = frame.ForwardFrame(w, v)
+        for step in range(4):
+            try:
+                got = address.from_frame(f)
+                gi = address.instance_from_frame(f) if hasattr(address, "instance_from_frame") and w == 24 else None
+            except Exception as e:
+                res.violation("C04/reread/raised", f"address.from_frame raised {type(e).__name__} on {v:#x}", {"frame": v})
+                break
+            exp = R.gear_address(v) if w == 16 else R.device_address(v)
+            res.evaluations += 1
+            res.hit("reread_after_bit_writes")
+            if (R.describe(got) if got is not None else None) != exp:
+                res.violation("C04/reread/stale-address", f"frame now holds {v:#x} ({w} bits) after single-bit writes; its address reads "
+                              f"{R.describe(got) if got is not None else None}, the bits say {exp}", {"frame": v, "step": step})
+                break
+            if gi is not None and (v >> 16) & 1 and R.describe(gi) != R.instance((v >> 8) & 0xFF):
+                res.violation("C04/reread/stale-instance", f"frame now holds {v:#x}; its instance byte reads {R.describe(gi)}", {"frame": v})
+                break
+            bit = r.randrange(w - 8, w) if r.random() < 0.7 else r.randrange(w)      # mostly in the address byte
+            if r.random() < 0.6:
+                f[bit] = not f[bit]
+            else:
+                lo = max(bit - 2, 0)
+                f[bit:lo] = r.getrandbits(bit - lo + 1)
+            v = f.as_integer
+    # labelled addresses an application derives from the library's kinds never take part in decoding, and stay equal to
+    # what they encode
+    labelled = {}
+    for nm in ("GearShort", "GearGroup", "DeviceShort", "DeviceGroup", "InstanceNumber", "InstanceGroup", "InstanceType",
+               "FeatureInstanceNumber"):
+        labelled[nm] = type("Labelled" + nm, (getattr(address, nm),), {"__module__": "application"})
+    for nm, cls in labelled.items():
+        for num in (0, 1, 15):
+            obj, plain = cls(num), getattr(address, nm)(num)
+            w = 16 if nm.startswith("Gear") else 24
+            f1, f2 = frame.ForwardFrame(w, 0x010000 if w == 24 else 0), frame.ForwardFrame(w, 0x010000 if w == 24 else 0)
+            obj.add_to_frame(f1)
+            plain.add_to_frame(f2)
+            res.evaluations += 1
+            res.hit("labelled_kinds_checked")
+            back = address.from_frame(f2) if not nm.startswith(("Instance", "Feature")) else address.instance_from_frame(f2) \
+                if hasattr(address, "instance_from_frame") else None
+            if f1 != f2:
+                res.violation(f"C04/labelled/bits/{nm}", f"a class derived from {nm} writes {f1.as_integer:#x}, {nm} writes {f2.as_integer:#x}", {"kind": nm})
+            elif back is not None and (not (back == plain) or not (plain == back) or type(back) is cls):
+                res.violation(f"C04/labelled/decode/{nm}", f"after an application derived a class from {nm}, the frame of {nm}({num}) reads back as "
+                              f"{type(back).__name__} and == gives {back == plain}/{plain == back}", {"kind": nm, "num": num})
     res.sample({"mixed": "6000 random (object, frame) pairs of all three codecs in one process after slice writes on widths 1..64"})
 
 
@@ -411,4 +508,6 @@ def run_shard(desc, tier, seed):
         eq(res)
     elif k == "mixed":
         mixed(seed, res)
+    elif k == "threads":
+        threads(seed, res)
     return res
